@@ -74,9 +74,10 @@ pub fn dispatch(op: &str, backend: &str, args: &Value) -> Value {
 
 const TRAIT_FORMS: [&str; 7] = ["strict.source", "strict.target", "strict.identity", "strict.spider", "lax.identity", "lax.spider", "lax.tensor"];
 
-const DERIVED: [(&str, &str); 9] = [
+const DERIVED: [(&str, &str); 10] = [
     ("ff.source", "ff.clone"),
     ("sf.len", "sf.clone"),
+    ("sf.len", "sf.is_zero"),
     ("sf.coproduct", "sf.eq"),
     ("ic.len_ff", "ic.clone_ff"),
     ("ic.map_indexes_sf", "ic.clone_sf"),
